@@ -147,8 +147,11 @@ def gen_tree(rng: Any, *, max_depth: int = 4, max_fanout: int = 4, max_nodes: in
             return ["yield", rng.randint(1, 3)]
         if r < 0.93:
             return ["teardown", fresh()]
-        if with_services and r < 0.97:
+        if with_services and r < 0.96:
             return ["service", fresh()]
+        if r < 0.985:
+            # the component starts an inner component tree of its own (re-entrant start_component)
+            return ["substart", fresh(), rng.choice([0, 0.5, 1])]
         return ["sleep", rng.choice([0.5, 1])]
 
     def advance(path: str) -> None:
@@ -254,6 +257,8 @@ def schedule(tree: dict[str, Any]) -> dict[str, Any]:
             v = max(before, t_step(*pub_step[str(st[1])]))
         elif st[0] == "timed_wait":
             v = min(max(before, t_step(*pub_step[str(st[1])])), before + st[2])
+        elif st[0] == "substart":
+            v = before + st[2]
         else:
             v = before
         memo[key] = v
@@ -522,6 +527,24 @@ class Run:
 
             add_teardown_callback(probe)
             self.log("teardown-reg", f"td{tid}")
+        elif kind == "substart":
+            from asphalt.core import Component, start_component
+
+            sub_id, dur = st[1], st[2]
+
+            class Inner(Component):
+                async def prepare(self_inner) -> None:  # noqa: N805
+                    add_teardown_callback(lambda: run.log("teardown-run", f"sub{sub_id}a"))
+                    run.log("teardown-reg", f"sub{sub_id}a")
+
+                async def start(self_inner) -> None:  # noqa: N805
+                    if dur:
+                        await anyio.sleep(dur)
+                    add_teardown_callback(lambda: run.log("teardown-run", f"sub{sub_id}b"))
+                    run.log("teardown-reg", f"sub{sub_id}b")
+
+            inner = await start_component(Inner, timeout=None)
+            self.log("substarted", path, ok=isinstance(inner, Inner))
         elif kind == "service":
             sid = st[1]
 
